@@ -117,6 +117,10 @@ def main():
     finally:
         sh("git -C /repo worktree remove --force %s" % wt)
         shutil.rmtree(wt, ignore_errors=True)
+        import hashlib
+        key = hashlib.sha1(wt.encode()).hexdigest()[:10]
+        for d in ("bin", "ov", "mod"):  # build output of the scratch tree
+            shutil.rmtree(os.path.join(V, ".cache", d, key), ignore_errors=True)
 
 
 def finish(src, sid, meta, ran, out):
